@@ -18,7 +18,9 @@ From GoCar Require Import Bytes Varint Cid Header Frame V2Header Scan Index Stor
 From Coq Require Import Sorting.Permutation.
 From GoCar Require Import Transform Deferred.
 From GoCar Require Traversal.
-From GoCarProofs Require TraversalV2.
+From GoCarProofs Require TraversalV2 ResumeFacts CrashGuarded.
+From GoCar Require Import Crash.
+From GoCarProofs Require Import FinalResume.
 From GoCarProofs Require Import CidFacts HeaderFacts ScanFacts FinalStore FinalWf FinalWide FinalMain FinalProducers FinalExamples.
 From GoCarProofs Require TransformWrap.
 
@@ -277,3 +279,48 @@ Theorem C05_traverse_output_wf :
   wf_finished false (wopts_of_t o') out = Some ([root], bs).
 Proof. exact traverse_output_wf. Qed.
 Print Assumptions C05_traverse_output_wf.
+
+(* ---- resumed sessions --------------------------------------------------------------------------------------------
+   A session interrupted (Discard / dropped handle / Finalize) and resumed any number of times with the same options
+   leaves, after the last Finalize, the bytes of the uninterrupted session (C12_transparent); by C05_wf they are
+   well-formed and carry the puts of ALL segments.  [CrashGuarded.singles] turns the put list into the singleton
+   batches of [session] (C06's bridge). *)
+Theorem C05_resumed_session_wf :
+  forall (hdrdec : bytes -> option (list bytes * N)) (k : skind) (o0 : wopts) (nilroots : bool)
+         (roots : list bytes) (segs : list (list block * cut)) (last : list block) (s0 : wstate),
+  let o := apply_wopts o0 in
+  let ro := roots_opt nilroots roots in
+  let all := concat (map fst segs) ++ last in
+  hdrdec (enc_header ro 1) = Some (roots, 1) ->
+  (exists r, hdrdec pragma_body = Some (r, 2)) ->
+  blen (enc_header ro 1) <= w_maxh o ->
+  match k with KStorage false => negb (w_v1 o) | _ => false end = false ->
+  51 + w_dpad o + w_ipad o + ld_size (blen (enc_header ro 1)) + blen (enc_sections all) < two63 ->
+  open_new k o nilroots roots [] = Ok s0 ->
+  exists sN,
+    run_segs hdrdec nilroots s0 segs = Some sN /\
+    let fin := fe_finalize (run_puts sN last) in
+    (snd (fe_finalize (run_puts s0 all)) = ONil ->
+     w_ipad o < two63 -> roots_ok roots ->
+     history_ok (CrashGuarded.singles all) = true ->
+     blen (ws_file (fst fin)) < two63 ->
+     (w_v1 o = false -> w_codec o = codec_mh_sorted ->
+      N.of_nat (length (group_by r_code (ii_load (records_from (ld_size (blen (enc_header ro 1)))
+                                                   (spec_stored k o ro (CrashGuarded.singles all))) []))) < two31) ->
+     wf_parse o (ws_file (fst fin)) = Some (roots, spec_stored k o ro (CrashGuarded.singles all))).
+Proof. exact resumed_session_wf. Qed.
+Print Assumptions C05_resumed_session_wf.
+
+(* Resume over a payload followed by zero bytes (null padding, a zero-filled crash tail) with
+   ZeroLengthSectionAsEOF: the rescan rebuilds the index of the sections and leaves the writer where the last
+   section ends -- at the zero length, not behind it (a writer positioned one byte later leaves a zero-length
+   section in the middle of the finished payload: seeded change C05-9, caught by the check kind "finalresume") *)
+Theorem C05_resume_scan_zero_tail :
+  forall (base : N) (bs : list block) (pre : bytes) (ii : iidx) (fuel : nat) (n : N),
+  Forall ResumeFacts.stored_ok bs ->
+  base + blen pre + blen (enc_sections bs) < two63 ->
+  (length bs < fuel)%nat -> 0 < n ->
+  resume_scan fuel true base (pre ++ enc_sections bs ++ zerosN n) (blen pre) ii
+  = Ok (ii_load (records_from (blen pre) bs) ii, blen pre + blen (enc_sections bs)).
+Proof. exact resume_scan_zero_tail. Qed.
+Print Assumptions C05_resume_scan_zero_tail.
